@@ -1,4 +1,4 @@
-import RV.C01.LemIter
+import RV.C01.LemSimple
 /-
   C01 helper lemmas, part H: the store-level API — `remove(pattern, None)`, the registered
   graphs `__all_contexts`, `contexts`, `add_graph`, `remove_graph`.
@@ -366,5 +366,11 @@ theorem nodup_allc_stStep {m : Mem} (hI : Inv m) (h : m.allc.Nodup) (op : StOp) 
   | addGraph k => exact nodup_sinsert h
   | removeGraph k => rw [Mem.stStep, (removeGraph_spec hI k).2.2]; exact nodup_sremove h
   | graph op => exact nodup_allc_step h op
+
+theorem stRun_inv : ∀ (ops : List StOp) (m : Mem), Inv m → Inv (m.stRun ops) := by
+  intro ops
+  induction ops with
+  | nil => intro m h; exact h
+  | cons op r ih => intro m h; exact ih _ (stStep_inv h op)
 
 end RV.C01
